@@ -42,6 +42,7 @@ import (
 	"github.com/oasisprotocol/oasis-core/go/common/crypto/tuplehash"
 	"github.com/oasisprotocol/oasis-core/go/common/node"
 	"github.com/oasisprotocol/oasis-core/go/common/sgx"
+	"github.com/oasisprotocol/oasis-core/go/common/sgx/ias"
 	"github.com/oasisprotocol/oasis-core/go/common/sgx/pcs"
 	"github.com/oasisprotocol/oasis-core/go/common/sgx/quote"
 )
@@ -65,6 +66,14 @@ type Case struct {
 	Root    []byte // DER of the root of trust to install (empty: Intel's)
 	AttRak  []byte // if set: also run node.SGXAttestation.Verify with this RAK ...
 	AttOK   []byte // ... and these allowed enclave identities (64 bytes each: MRENCLAVE || MRSIGNER)
+	// Node registration: shape of the descriptor's SGX constraints policy ("" = {PCS: Pol} and no
+	// consensus default; "nil", "empty", "ias", "pcs", "both"), consensus feature flag and default.
+	Reg    string
+	FsPCS  bool
+	Def    string // "nil" (no DefaultPolicy) | "none" (DefaultPolicy without PCS part) | "pcs"
+	DefIAS bool
+	DefPol *pcs.QuotePolicy
+	regWanted bool   // generator note
 	Unbound []string // generator note: documented-unbound fields this input deviates in (not serialised)
 	Sec     int64
 	Nsec    int64
@@ -97,15 +106,37 @@ func b01(b bool) string {
 	return "0"
 }
 
+func dash(s string) string {
+	if s == "" {
+		return "-"
+	}
+	return s
+}
+
+func undash(s string) string {
+	if s == "-" {
+		return ""
+	}
+	return s
+}
+
+func polJSON(p *pcs.QuotePolicy) string {
+	if p == nil {
+		return "nil"
+	}
+	j, _ := json.Marshal(p)
+	return hx(j)
+}
+
 func (c *Case) Line() string {
 	pol := "nil"
 	if c.Pol != nil {
 		j, _ := json.Marshal(c.Pol)
 		pol = hx(j)
 	}
-	return fmt.Sprintf("case tag=%s quote=%s tcbnil=%s tb=%s tsg=%s qb=%s qsg=%s certs=%s pol=%s dbg=%s lax=%s bl=%s root=%s rak=%s allowed=%s sec=%d nsec=%d",
+	return fmt.Sprintf("case tag=%s quote=%s tcbnil=%s tb=%s tsg=%s qb=%s qsg=%s certs=%s pol=%s dbg=%s lax=%s bl=%s root=%s rak=%s allowed=%s reg=%s fspcs=%s def=%s defias=%s defpol=%s sec=%d nsec=%d",
 		c.Tag, hx(c.Quote), b01(c.TcbNil), hx(c.TcbBody), hx([]byte(c.TcbSig)), hx(c.QeBody), hx([]byte(c.QeSig)),
-		hx(c.Certs), pol, b01(c.Dbg), b01(c.Lax), hx(c.Bl), hx(c.Root), hx(c.AttRak), hx(c.AttOK), c.Sec, c.Nsec)
+		hx(c.Certs), pol, b01(c.Dbg), b01(c.Lax), hx(c.Bl), hx(c.Root), hx(c.AttRak), hx(c.AttOK), dash(c.Reg), b01(c.FsPCS), dash(c.Def), b01(c.DefIAS), polJSON(c.DefPol), c.Sec, c.Nsec)
 }
 
 func parseCaseLine(l string) (*Case, error) {
@@ -130,6 +161,14 @@ func parseCaseLine(l string) (*Case, error) {
 		}
 		c.Pol = &p
 	}
+	c.Reg, c.FsPCS, c.Def, c.DefIAS = undash(m["reg"]), m["fspcs"] == "1", undash(m["def"]), m["defias"] == "1"
+	if dp, ok := m["defpol"]; ok && dp != "nil" && dp != "" {
+		var p pcs.QuotePolicy
+		if err := json.Unmarshal(unhx(dp), &p); err != nil {
+			return nil, err
+		}
+		c.DefPol = &p
+	}
 	c.Sec, _ = strconv.ParseInt(m["sec"], 10, 64)
 	c.Nsec, _ = strconv.ParseInt(m["nsec"], 10, 64)
 	return c, nil
@@ -151,6 +190,10 @@ func (c *Case) clone() *Case {
 			p.TDX = &t
 		}
 		d.Pol = &p
+	}
+	if c.DefPol != nil {
+		p := *c.DefPol
+		d.DefPol = &p
 	}
 	return &d
 }
@@ -246,6 +289,8 @@ func canonResult(v *sgx.VerifiedQuote) string {
 }
 
 type implOut struct {
+	defRes   string // Quote.Verify under the consensus default PCS policy, when that is the one that must apply
+	applyBad string // ApplyDefaultConstraints did not produce the demanded policy
 	att      string // outcome of node.SGXAttestation.Verify: "" (not run) | ok | identity | rak | quote
 	parseErr string // error of UnmarshalBinary ("" if parsed)
 	quote    *pcs.Quote
@@ -263,6 +308,20 @@ func runImpl(c *Case) (o implOut) {
 	setEnv(c)
 	if len(c.AttRak) == 32 && !c.TcbNil {
 		o.att = runAttestation(c)
+		if c.Reg != "" {
+			o.applyBad = checkApplyDefaults(c)
+			if cfg, sc := registrationInputs(c); defaultMustApply(cfg, sc) {
+				var dq pcs.Quote
+				o.defRes = "reject:parse"
+				if dq.UnmarshalBinary(c.Quote) == nil {
+					if v, err := dq.Verify(cfg.SGX.DefaultPolicy.PCS, c.ts(), c.bundle()); err == nil {
+						o.defRes = canonResult(v)
+					} else {
+						o.defRes = "reject:" + stageOf(err.Error())
+					}
+				}
+			}
+		}
 	}
 	var q pcs.Quote
 	if err := q.UnmarshalBinary(c.Quote); err != nil {
@@ -283,10 +342,73 @@ func runImpl(c *Case) (o implOut) {
 
 // runAttestation runs the node-registration side (go/common/node/sgx.go): quote verification,
 // enclave identity constraint and RAK binding.
+// registrationInputs builds the consensus features and the descriptor's constraints of a case.
+func registrationInputs(c *Case) (*node.TEEFeatures, *node.SGXConstraints) {
+	cfg := &node.TEEFeatures{SGX: node.TEEFeaturesSGX{PCS: true}}
+	sc := &node.SGXConstraints{}
+	switch c.Reg {
+	case "":
+		sc.Policy = &quote.Policy{PCS: c.Pol}
+		return cfg, sc
+	case "nil":
+	case "empty":
+		sc.Policy = &quote.Policy{}
+	case "ias":
+		sc.Policy = &quote.Policy{IAS: &ias.QuotePolicy{}}
+	case "pcs":
+		sc.Policy = &quote.Policy{PCS: c.Pol}
+	case "both":
+		sc.Policy = &quote.Policy{IAS: &ias.QuotePolicy{}, PCS: c.Pol}
+	}
+	cfg.SGX.PCS = c.FsPCS
+	switch c.Def {
+	case "none":
+		cfg.SGX.DefaultPolicy = &quote.Policy{}
+	case "pcs":
+		cfg.SGX.DefaultPolicy = &quote.Policy{PCS: c.DefPol}
+	}
+	if c.DefIAS && cfg.SGX.DefaultPolicy != nil {
+		cfg.SGX.DefaultPolicy.IAS = &ias.QuotePolicy{}
+	}
+	return cfg, sc
+}
+
+// defaultMustApply: the descriptor leaves the PCS policy unset, the PCS feature is on and there
+// is a consensus default policy: its PCS part is the policy the quote must be judged by.
+func defaultMustApply(cfg *node.TEEFeatures, sc *node.SGXConstraints) bool {
+	return (sc.Policy == nil || sc.Policy.PCS == nil) && cfg.SGX.PCS && cfg.SGX.DefaultPolicy != nil
+}
+
+// checkApplyDefaults runs the real ApplyDefaultConstraints on a fresh copy and checks the
+// property's demand on its result directly.
+func checkApplyDefaults(c *Case) string {
+	cfg, sc := registrationInputs(c)
+	must := defaultMustApply(cfg, sc)
+	var before *pcs.QuotePolicy
+	if sc.Policy != nil {
+		before = sc.Policy.PCS
+	}
+	cfg.SGX.ApplyDefaultConstraints(sc)
+	var after *pcs.QuotePolicy
+	if sc.Policy != nil {
+		after = sc.Policy.PCS
+	}
+	switch {
+	case must && after != cfg.SGX.DefaultPolicy.PCS:
+		return "descriptor leaves the PCS policy unset (" + c.Reg + ") but after ApplyDefaultConstraints Policy.PCS is not the consensus default"
+	case before != nil && after != before:
+		return "ApplyDefaultConstraints replaced the descriptor's own PCS policy"
+	}
+	return ""
+}
+
+// runAttestation runs the node-registration side (go/common/node/sgx.go, tee.go): resolution of
+// the policy from descriptor constraints and consensus defaults, quote verification, enclave
+// identity constraint and RAK binding.
 func runAttestation(c *Case) string {
 	var rak signature.PublicKey
 	copy(rak[:], c.AttRak)
-	sc := &node.SGXConstraints{Policy: &quote.Policy{PCS: c.Pol}}
+	cfg, sc := registrationInputs(c)
 	for i := 0; i+64 <= len(c.AttOK); i += 64 {
 		var id sgx.EnclaveIdentity
 		copy(id.MrEnclave[:], c.AttOK[i:i+32])
@@ -296,7 +418,7 @@ func runAttestation(c *Case) string {
 	sa := node.SGXAttestation{Quote: quote.Quote{PCS: &pcs.QuoteBundle{Quote: c.Quote, TCB: *c.bundle()}}}
 	sa.V = node.LatestSGXAttestationVersion
 	var nodeID signature.PublicKey
-	err := sa.Verify(&node.TEEFeatures{SGX: node.TEEFeaturesSGX{PCS: true}}, c.ts(), 0, sc, rak, nil, nodeID)
+	err := sa.Verify(cfg, c.ts(), 0, sc, rak, nil, nodeID)
 	switch {
 	case err == nil:
 		return "ok"
@@ -668,9 +790,11 @@ func certsEnc(certs []*x509.Certificate, exts map[int]string) string {
 	return strings.Join(s, ";")
 }
 
-func policyEnc(p *pcs.QuotePolicy) string {
+func policyEnc(p *pcs.QuotePolicy) string { return policyEncP(p, "") }
+
+func policyEncP(p *pcs.QuotePolicy, pre string) string {
 	if p == nil {
-		return "pol=nil"
+		return pre + "pol=nil"
 	}
 	strs := func(l []string) string {
 		if len(l) == 0 {
@@ -697,7 +821,7 @@ func policyEnc(p *pcs.QuotePolicy) string {
 			tdx = strings.Join(s, ";")
 		}
 	}
-	return fmt.Sprintf("pol=set dis=%s val=%d min=%d wl=%s blk=%s tdx=%s", b01(p.Disabled), p.TCBValidityPeriod,
+	return fmt.Sprintf("%[1]spol=set %[1]sdis=%[2]s %[1]sval=%[3]d %[1]smin=%[4]d %[1]swl=%[5]s %[1]sblk=%[6]s %[1]stdx=%[7]s", pre, b01(p.Disabled), p.TCBValidityPeriod,
 		p.MinTCBEvaluationDataNumber, strs(p.FMSPCWhitelist), strs(p.FMSPCBlacklist), tdx)
 }
 
@@ -880,6 +1004,28 @@ func modelLine(c *Case, o *implOut, withRaw bool) (f facts) {
 		}
 		add("allowed", strings.Join(ids, ";"))
 		add("implatt", o.att)
+		if c.Reg != "" {
+			_, sc := registrationInputs(c)
+			rp := "set"
+			if sc.Policy == nil {
+				rp = "nil"
+			}
+			add("regpol", rp)
+			add("regias", b01(sc.Policy != nil && sc.Policy.IAS != nil))
+			add("regpcs", b01(sc.Policy != nil && sc.Policy.PCS != nil))
+			add("fspcs", b01(c.FsPCS))
+			if c.Def == "none" || c.Def == "pcs" {
+				add("def", "set")
+				add("defias", b01(c.DefIAS))
+				var dp *pcs.QuotePolicy
+				if c.Def == "pcs" {
+					dp = c.DefPol
+				}
+				w = append(w, policyEncP(dp, "d"))
+			} else {
+				add("def", "nil")
+			}
+		}
 	}
 	add("impl", o.res)
 	f.allLinks = len(f.linkFails) == 0
@@ -891,7 +1037,20 @@ func modelLine(c *Case, o *implOut, withRaw bool) (f facts) {
 
 // specCheck evaluates the property's clauses directly on what the implementation answered.
 func specCheck(c *Case, o *implOut, f *facts) (sig, detail string) {
-	if o.att == "ok" && !strings.HasPrefix(o.res, "accept:") {
+	if o.applyBad != "" {
+		return "default-policy-not-applied", o.applyBad
+	}
+	if o.defRes != "" && strings.HasPrefix(o.defRes, "reject:") && o.att != "quote" && o.att != "" {
+		return "default-policy-not-applied", fmt.Sprintf("the descriptor (%s) sets no PCS policy, the consensus default PCS policy rejects the quote (%s), but SGXAttestation.Verify let the quote pass (%s)", c.Reg, o.defRes, o.att)
+	}
+	if c.Reg != "" {
+		// the primary result below was obtained with the case's own policy, not the resolved one
+		if o.att == "ok" && o.defRes == "" && !strings.HasPrefix(o.res, "accept:") {
+			if _, sc := registrationInputs(c); sc.Policy != nil && sc.Policy.PCS != nil {
+				return "attestation-accepted-unverified-quote", "node attestation accepted while Quote.Verify under the descriptor's policy rejects: " + o.res
+			}
+		}
+	} else if o.att == "ok" && !strings.HasPrefix(o.res, "accept:") {
 		return "attestation-accepted-unverified-quote", "node attestation accepted while Quote.Verify rejects: " + o.res
 	}
 	if !strings.HasPrefix(o.res, "accept:") {
